@@ -584,4 +584,8 @@ def run(ctx, res):
     from ..affine import affine_scope, report_affine
     k9 = report_affine(ctx, res, "R14.9", affine_scope(ctx, [ctx.repo.fn(b_) for b_ in BUILDERS], ("ConvexPolygon", "ConvexPolyhedron")), "the shape built")
     ctx.require(res, "R14.9", k9, 7, "function contexts examined for position / direction mismatches")
+    # R14.11 no vertex coordinate is rounded
+    from ..exact import report_rounding
+    kr = report_rounding(ctx, res, "R14.11", affine_scope(ctx, [ctx.repo.fn(b_) for b_ in BUILDERS], ()), "a vertex")
+    ctx.require(res, "R14.11", kr, 7, "functions scanned for rounding")
     res.undecided_ob("vertex/edge/face counts, vertices on the specified surface at equal steps, closed-form area and volume (numeric)")
